@@ -4,10 +4,19 @@
    CommitHandler::list_manifest_locations, migrate_scheme_to_v2) and
    rust/lance-table/src/format/manifest.rs (is_detached_version).
    File names are byte lists ([list N], one N per UTF-8 byte). Executable definitions only. *)
+From Coq Require String Ascii.
 From LanceV Require Import Common.Base.
+Export String.StringSyntax.   (* string literals only (no other name of Coq.Strings.String is imported) *)
 Local Open Scope N_scope.
 
 Definition name := list N.
+(* the bytes of a string literal: correspondence shards write file names as [bs "12.manifest"] *)
+Fixpoint bs (s : String.string) : name :=
+  match s with
+  | String.EmptyString => []
+  | String.String c r => Ascii.N_of_ascii c :: bs r
+  end.
+Arguments bs s%string_scope.
 Inductive scheme := V1 | V2.
 Definition scheme_eqb (a b : scheme) : bool :=
   match a, b with V1, V1 | V2, V2 => true | _, _ => false end.
@@ -190,16 +199,20 @@ Fixpoint sanity_loop (version : N) (rest : list (scheme * name)) : outcome unit 
            end
   end.
 
-(* the full scan of the second arm *)
-Fixpoint full_scan (cur_v : N) (cur_f : name) (rest : list (scheme * name)) : outcome (N * name) :=
+(* the full scan of the second arm (repair 68164c9): [first] is the scheme of the first valid entry;
+   a V2 entry is rejected only in a directory that started out as V1; every entry is parsed with its
+   own scheme; the scheme reported is that of the entry chosen *)
+Fixpoint full_scan (first : scheme) (cur_v : N) (cur_f : name) (cur_s : scheme) (rest : list (scheme * name))
+  : outcome (N * name * scheme) :=
   match rest with
-  | [] => Ok (cur_v, cur_f)
-  | (s, f) :: r =>
-      if scheme_eqb s V2 then Err                                (* "Found V2 manifest in a V1 manifest directory" *)
-      else match parse_version s f with
+  | [] => Ok (cur_v, cur_f, cur_s)
+  | (entry_scheme, f) :: r =>
+      if scheme_eqb first V1 && scheme_eqb entry_scheme V2 then Err   (* "Found V2 manifest in a V1 manifest directory" *)
+      else match parse_version entry_scheme f with
            | None => Panic
            | Some version =>
-               if cur_v <? version then full_scan version f r else full_scan cur_v cur_f r
+               if cur_v <? version then full_scan first version f entry_scheme r
+               else full_scan first cur_v cur_f cur_s r
            end
   end.
 
@@ -223,8 +236,8 @@ Definition current_manifest_path (is_local lexical : bool) (read_dir listing : l
         match parse_version s f with
         | None => LPanic
         | Some v0 =>
-            match full_scan v0 f rest with
-            | Ok (v, g) => Found v g s
+            match full_scan s v0 f s rest with
+            | Ok (v, g, s') => Found v g s'
             | Err => LErr
             | Panic => LPanic
             end
